@@ -109,7 +109,7 @@ class Att(object):
         if ans == 6:
             raise RuntimeError('attacher raises')
         val = {0: w.built, 1: w.unbuilt, 2: w.foreign, 3: 'not a circuit', 4: None, 5: TorState.DO_NOT_ATTACH,
-               7: False, 8: 0, 9: ''}[ans]     # 7..9: invalid answers that happen to be falsy
+               7: False, 8: 0, 9: '', 10: w.guardwait}[ans]     # 7..9: invalid answers that happen to be falsy; 10: a known circuit in GUARD_WAIT
         if w.mode == 0:
             return val
         if w.mode == 1:
@@ -143,6 +143,8 @@ def _answers(answer, mode, exit_target, two, later):
             deliver(state, kind, payload)
         w.built = state.circuits[1]
         w.unbuilt = state.circuits[2]
+        state._circuit_update('3 GUARD_WAIT %s PURPOSE=GENERAL' % ('$' + 'A' * 40 + '~relaya'))
+        w.guardwait = state.circuits[3]
         w.foreign = Circuit(state)
         w.foreign.id = 77
         w.foreign.state = 'BUILT'
@@ -180,7 +182,7 @@ def _answers(answer, mode, exit_target, two, later):
                 want = {0: ['ATTACHSTREAM %d 1' % sid], 4: ['ATTACHSTREAM %d 0' % sid]}.get(answer, [])
             if got != want:
                 return R('wrong-attachment-decision-sent', 'stream %d answer %d mode %d: sent %r want %r', sid, answer, mode, got, want)
-        if not exit_target and answer in (1, 2, 3, 6, 7, 8, 9):
+        if not exit_target and answer in (1, 2, 3, 6, 7, 8, 9, 10):
             if len(errors) != len(sids):
                 return R('invalid-attacher-answer-not-reported', 'answer %d: %d reports for %d streams', answer, len(errors), len(sids))
         elif errors:
@@ -206,7 +208,7 @@ def _answers(answer, mode, exit_target, two, later):
     return ''
 
 
-@cond(quick=dict(parts=[{'answer': a} for a in range(10)], budget=100))
+@cond(quick=dict(parts=[{'answer': a} for a in range(11)], budget=100))
 def c09_answers(answer: int, mode: int, exit_target: bool, two: bool, later: bool) -> str:
     """attacher answer kind x delivery mode x stream kind x one/two streams x later events of the same stream"""
     mode = api.pick(mode, 0, 2)
@@ -365,3 +367,105 @@ def c09_via_circuit(k: int, part: int, late_ack: bool) -> str:
     late_ack = True if late_ack else False
     with api.no_tracing():
         return _via(ORDERS[k], late_ack)
+
+
+# ------------------------------------------------------------------ via-circuit, second family: the circuit closes, the port is re-used
+B, A, X, N, NR, S = range(6)
+_N2 = ['B2', 'A2', 'X2', 'N2', 'NR', 'S2']
+
+
+def _orders2():
+    """connection 2 only: B (circuit 2 BUILT) first; A (address known) and X (circuit 2 CLOSED) and S (SOCKS leg done) after B;
+    N (Tor announces the stream) after A; NR (a later, unrelated stream from the same local port) after N"""
+    out = []
+
+    def rec(seq, done):
+        c = []
+        if B not in done:
+            c.append(B)
+        else:
+            for e in (A, X, S):
+                if e not in done:
+                    c.append(e)
+            if A in done and N not in done:
+                c.append(N)
+            if N in done and NR not in done:
+                c.append(NR)
+        if not c:
+            out.append(seq)
+            return
+        for e in c:
+            rec(seq + [e], done | {e})
+    rec([], frozenset())
+    return out
+
+
+ORDERS2 = _orders2()
+
+
+def _via2(order):
+    prelude.reset_module_state()
+    circuit_mod._get_circuit_attacher.attacher = None
+    state, p, t = new_state()
+    pump = Pump(p, t)
+    errors = []
+    state._attacher_error = lambda f: errors.append(f) or None
+    model = TorModel()
+    for ev in (0, 1, 3, NC, NC + 1):
+        kind, payload = model.apply(ev)
+        deliver(state, kind, payload)
+    reactor = FakeReactor()
+    ep = FakeTargetEndpoint()
+    done = []
+    try:
+        out = fakes.Outcome(TorCircuitEndpoint(reactor, state, state.circuits[2], ep).connect(object()))
+        pump.run()
+        for code in order:
+            closed_before_announce = X in done and N not in done
+            done.append(code)
+            if code == B:
+                kind, payload = model.apply(NC + 3)
+                deliver(state, kind, payload)
+            elif code == A:
+                if ep.connected != 1:
+                    return R('underlying-connect-not-started-once-circuit-built')
+                ep._addr.fire(IPv4Address('TCP', '127.0.0.1', PORTS[2]))
+            elif code == X:
+                kind, payload = model.apply(NC + 4)
+                deliver(state, kind, payload)
+            elif code == N:
+                state._stream_update('12 NEW 0 www.c2.example:80 SOURCE_ADDR=127.0.0.1:%d PURPOSE=USER' % PORTS[2])
+            elif code == NR:
+                state._stream_update('12 CLOSED 0 www.c2.example:80 REASON=DONE')
+                state._stream_update('14 NEW 0 www.later.example:80 SOURCE_ADDR=127.0.0.1:%d PURPOSE=USER' % PORTS[2])
+            else:
+                if ep.connect_d is None:
+                    return R('underlying-connect-not-started-once-circuit-built')
+                ep.connect_d.callback('proto2')
+            pump.run()
+            if out.fired > 1:
+                return R('connect-fired-twice')
+            if N in done:
+                want = ['ATTACHSTREAM 12 0'] if (X in done and done.index(X) < done.index(N)) else ['ATTACHSTREAM 12 2']
+                if pump.attach_lines(12) != want:
+                    return R('via-circuit-stream-decision-wrong', 'order %r: sent %r want %r', [_N2[c] for c in done], pump.attach_lines(12), want)
+                if X in done and done.index(X) < done.index(N):
+                    if out.ok:
+                        return R('connect-succeeded-although-its-circuit-closed-first', 'order %r', [_N2[c] for c in done])
+                    if S in done and out.err != 1:       # (the failure surfaces once the underlying connect has resolved)
+                        return R('connect-did-not-fail-although-its-circuit-closed-first', 'order %r', [_N2[c] for c in done])
+            if NR in done and pump.attach_lines(14) != ['ATTACHSTREAM 14 0']:
+                return R('unrelated-stream-captured-or-undecided', 'a later stream from the re-used local port: %r (order %r)', pump.attach_lines(14), [_N2[c] for c in done])
+    except Exception as e:
+        return R('exception', '%s: %s (order %r)', type(e).__name__, e, [_N2[c] for c in done])
+    reached()
+    return ''
+
+
+@cond(quick=dict(budget=150))
+def c09_via_circuit_closing(k: int) -> str:
+    """one via-circuit connection whose circuit closes at any point, and a later unrelated stream that re-uses its local port:
+    every causal order of {built, address known, circuit closed, stream announced, later stream, SOCKS done}"""
+    k = api.pick(k, 0, len(ORDERS2) - 1)
+    with api.no_tracing():
+        return _via2(ORDERS2[k])
